@@ -44,3 +44,10 @@ From RS Require Import Schedule Swaps SwapsRot SwapsRotFacts.
 Theorem C08_local_optimality_independent_of_last_swap : forall nw, stmt_rotation_keeps_improving_neighbours nw.
 Proof. exact rotation_keeps_improving_neighbours. Qed.
 Print Assumptions C08_local_optimality_independent_of_last_swap.
+
+(** the search of the pipeline reaches its fixpoint: for every loaded network, start solution and pick the loop stops after
+    finitely many accepted steps (so "its result" exists) *)
+From RS Require Import SearchTermStmts SearchTermFacts.
+Theorem C08_search_reaches_a_fixpoint : stmt_schedule_search_terminates_loaded.
+Proof. exact schedule_search_terminates_loaded. Qed.
+Print Assumptions C08_search_reaches_a_fixpoint.
